@@ -146,7 +146,7 @@ func TestCheck(t *testing.T) {
 	if r.Thorough() {
 		exhLimit = 7
 	}
-	rounds := r.N(8, 160)
+	rounds := r.N(8, 64)
 	pairs := allPairs()
 
 	r.Rule(fmt.Sprintf("case = one (n,t) pair of the 45 pairs n in 2..10, 2<=t<=n (each pair visited once per round, %d rounds) x one secret "+
@@ -733,7 +733,7 @@ func (s *split) checkSubstitutions(c *kit.Case, ids []int, j int, foreign, respl
 	return done
 }
 
-// runAsanChild re-runs the same workload (same seed, thorough tier) in a child `go test -asan`
+// runAsanChild re-runs the same workload (same seed, thorough tier, a quarter of the rounds) in a child `go test -asan`
 // build so that AddressSanitizer's interceptors watch the cgo boundary of the herumi library.
 // Its violations are merged; an ASan report is a violation; a toolchain that cannot build with
 // -asan is recorded, not judged.
@@ -759,7 +759,8 @@ func runAsanChild(r *kit.Run) {
 	args = append(args, "-run", "^TestCheck$", "-count=1", "-timeout", "0", ".")
 	cmd := exec.Command("go1.26.8", args...)
 	cmd.Dir = dir
-	cmd.Env = append(os.Environ(), "VERIF_ASAN_CHILD=1", "VERIF_OUT="+out, "VERIF_TIER=thorough",
+	// a quarter of the rounds: the -asan build is there to watch the cgo boundary, not to repeat the volume
+	cmd.Env = append(os.Environ(), "VERIF_ASAN_CHILD=1", "VERIF_OUT="+out, "VERIF_TIER=thorough", "VERIF_SCALE=0.25",
 		fmt.Sprintf("VERIF_SEED=%d", r.Seed), "ASAN_OPTIONS=detect_leaks=0:halt_on_error=1")
 	var buf bytes.Buffer
 	cmd.Stdout, cmd.Stderr = &buf, &buf
